@@ -37,6 +37,15 @@ def _binops(t, under=False, out=None):
     if t[1] == '_process_binop':
       out.append((t, under))
       return out
+    # the same comparison with the helper written out: the overload of the
+    # operator applied to the operands, or the plain binary operation
+    if t[1] == '_as_binary_function' and len(t) == 5 and isinstance(t[2], tuple) and \
+        t[2][:2] == ('term', '_overload_of'):
+      out.append((('term', '_process_binop', t[2][2], t[3], t[4]), under))
+      return out
+    if t[1] == '_as_binary_operation' and len(t) == 5:
+      out.append((('term', '_process_binop', t[2], t[3], t[4]), under))
+      return out
     u = under or t[1] == '_as_lambda'
     for a in t[2:]:
       _binops(a, u, out)
